@@ -100,7 +100,9 @@ def run_recheck(case):
     try:
         tree = case["tree"]
         single = bool(tree.get("single"))
-        root = alpha.materialize(tree, os.path.join(sbx, "p"))
+        # parent_named: the payload's parent directory carries the payload's own name
+        pdir = os.path.join(sbx, "p", tree["name"]) if case.get("parent_named") else os.path.join(sbx, "p")
+        root = alpha.materialize(tree, pdir)
         os.makedirs(os.path.join(sbx, "o"))
         out = os.path.join(sbx, "o", "m.torrent")
         rec = {"id": case["id"], "op": "recheck", "group": case.get("group", "none"),
